@@ -331,12 +331,18 @@ def run_scenario(item):
                 try:
                     if c.key:
                         csock = send_cancel(w.port, c.key[0], c.key[1], wait=False)
-                        # the listener stays down until the pooler has dealt with the request (the `cancel_done` hook:
-                        # Server::cancel has returned), a tenth of a second at most
-                        end = time.time() + 0.1
+                        # the listener stays down until the pooler has dealt with the request: until it has looked the key
+                        # up (`cancel_lookup` hook; a second at most, however slow the machine) and then until Server::cancel
+                        # has returned (`cancel_done` hook) - a tenth of a second at most, a refused connect takes no time
+                        end = time.time() + 1.0
+                        seen_lookup = None
                         while time.time() < end:
-                            if any(h['ev'] == 'cancel_done' for h in w.hooks()[nh:]):
+                            hs = w.hooks()[nh:]
+                            if any(h['ev'] == 'cancel_done' for h in hs):
                                 break
+                            if seen_lookup is None and any(h['ev'] == 'cancel_lookup' for h in hs):
+                                seen_lookup = time.time()
+                                end = min(end, seen_lookup + 0.1)
                             time.sleep(0.005)
                 finally:
                     be.listener_up()
